@@ -334,7 +334,7 @@ def Flt.tanFuel (fuel : Nat) (x : Flt) : Option Flt :=
   else if x.isInf then some (Flt.nan x.sem x.sign)
   else
     let orig := x.sem
-    let sem := (orig.growLog 12).increaseExponent 4
+    let sem := ((orig.increasePrecision orig.p).growLog 12).increaseExponent 4
     let v0 := x.castWithRm sem .none
     let neg0 := v0.sign
     let v1 := if v0.sign then v0.neg else v0
